@@ -395,7 +395,8 @@ def units_C09(tier, seed):
 INFO['C19'] = {
     'bounds': 'nd_map<nd_size<D>>: D=1..3 with extents 0..3 (quick: 0..2 for D=3), D=4 with 0..2, D=5 with 0..1 (thorough); symbolic '
               'probe tuple over all 64-bit values: counted exactly once iff inside the box; invocation total == product of extents; '
-              'closures (std::function copies) released',
+              'closures (std::function copies) released; for ALL extent vectors with every extent >= 1 (unbounded 64-bit values), D=1..5: the '
+              'callback is invoked and its first tuple is the origin (the callback leaves the walk by throwing)',
     'outside': 'larger extents (loop forks once per iteration; bound B is an assumption of the harness)', 'cuts': 'none', 'assumptions': [],
 }
 INFO['C17'] = {
@@ -420,6 +421,8 @@ INFO['C05'] = {
 def units_C19(tier, seed):
     th = tier == 'thorough'
     U = []
+    for d in (1, 2, 3, 4, 5):
+        U += unit(f'c19_first_{d}', 'c19_ndmap.cpp', f'ndmap_first_h<{d}>()', sites=[1, 2], diff=(d == 2), flavours=('rel', 'dbg') if d == 3 else ('rel',))
     for d, b in ((1, 3), (2, 3), (3, 3 if th else 2)) + (((4, 2), (5, 1)) if th else ((4, 1),)):
         U += unit(f'c19_ndmap_{d}_{b}', 'c19_ndmap.cpp', f'ndmap_h<{d},{b}>()', sites=[1, 2, 3],
                   flavours=('rel', 'dbg', 'san') if d == 2 else ('rel',), diff=(d <= 2), weight=(b + 1) ** d, timeout=1800,
@@ -677,7 +680,7 @@ def units_C15(tier, seed):
 # ------------------------------------------------------------------------------------------------ C16
 INFO['C16'] = {
     'bounds': 'footprint of field_view::at for storage orders {row-major, Morton pdep, Morton portable, Hilbert} x {no interpolator, '
-              'nearest, linear} x N<=3 (Hilbert 2), array-backed, grids of 2..3 cells per axis with symbolic contents, symbolic in-domain '
+              'nearest, linear} x N<=3 (Hilbert 2) plus 4-D row-major linear (the generic N>=4 branch), array-backed, grids of 2..3 cells per axis with symbolic contents, symbolic in-domain '
               'coordinate: no store to the view, the field, the buffer or any non-stack object; no mutable global, thread_local, atomic or '
               'static-local guard touched; result identical through a second copy of the view; distinct coordinates map to disjoint cells '
               'for ALL extents (the C01 injectivity units). No bound on the number of threads: no conflicting access exists, so no '
@@ -709,6 +712,12 @@ def units_C16(tier, seed):
                           f'footprint_h<{lay},{interp},{n},{VEC[v]},{ext}>()', extra=ex, sites=[1, 2, 3],
                           flavours=('rel', 'dbg') if (n == 2 and interp != 2) else ('rel',), weight=ext ** n * (4 if interp == 2 else 1),
                           cfg={'query_timeout_ms': 300000}, timeout=1800)
+    # the generic N>=4 branch of linear has its own code: one 4-D unit
+    U += unit('c16_footprint_rowmajor_linear_4_f1', 'c16_footprint.cpp', f'footprint_h<0,2,4,{VEC["f1"]},2>()', sites=[1, 2, 3], weight=400,
+              cfg={'query_timeout_ms': 300000, 'sym_cells_cap': 1024}, timeout=3000)
+    if th:
+        U += unit('c16_footprint_mortonport_nn_4_f2', 'c16_footprint.cpp', f'footprint_h<2,1,4,{VEC["f2"]},2>()', sites=[1, 2, 3], weight=400,
+                  cfg={'query_timeout_ms': 300000, 'sym_cells_cap': 1024}, timeout=3000)
     for u in U:
         u['native'] = 'tsan'
     # writers to distinct coordinates: disjoint cells for all extents
